@@ -33,6 +33,7 @@ ASSUMPTIONS = ['the grid and the use-once rule are C10\'s business: the oracle t
                'tolerance 1e-5 of the row scale (cond(C_zz) eps with margin), reported tightness']
 MODEL_CLASSES = ['none', 'bias', 'bias_walk', 'noise', 'subset', 'scale_diag', 'scale_full', 'all']
 STEPS = [0.2, 1.0, 5.0]
+STEP_BELOW_SAMPLING = 0.02      # shorter than the 0.05 s trajectory sampling: the filter advances row by row
 SIGMA_SCALES = [1e-2, 1e-1, 1.0, 10.0]
 SDS = np.array([5.0, 0.2, 0.1, 0.5])
 
@@ -68,7 +69,14 @@ def gen_cases(tier, seed):
             k = pairs.index((g, a)) + mixes.index(mix) + STEPS.index(step)
             cases.append(dict(traj=(k + seed) % 3, gyro=g, accel=a, mix=''.join(mix), step=step, wa=wa,
                               sigma=SIGMA_SCALES[(k + seed) % 4]))
+        # time_step below the trajectory sampling interval (a few model pairs, two mixes)
+        for (g, a), mix, wa in itertools.product(pairs[:4], (('P',), ('P', 'V', 'B')), (True, False)):
+            cases.append(dict(traj=seed % 3, gyro=g, accel=a, mix=''.join(mix), step=STEP_BELOW_SAMPLING, wa=wa, sigma=1.0))
     else:
+        for (g, a), mix, wa in itertools.product([(x, y) for x in MODEL_CLASSES[::2] for y in MODEL_CLASSES[1::2]],
+                                                 mixes, (True, False)):
+            cases.append(dict(traj=(seed + 1) % 3, gyro=g, accel=a, mix=''.join(mix), step=STEP_BELOW_SAMPLING, wa=wa,
+                              sigma=1.0))
         for g, a, mix, step, wa in itertools.product(MODEL_CLASSES, MODEL_CLASSES, mixes, STEPS, (True, False)):
             k = MODEL_CLASSES.index(g) * 8 + MODEL_CLASSES.index(a) + mixes.index(mix) + STEPS.index(step)
             for sg in (SIGMA_SCALES[k % 4], SIGMA_SCALES[(k + 2) % 4]):
@@ -113,10 +121,10 @@ def make_measurements(mix, traj_true, noise):
     out = []
     t = np.asarray(traj_true.index, dtype=float)
     if 'P' in mix:
-        rows = [7, 30, 31, 77, 120]          # 30/31 adjacent rows; 120 late
+        rows = [0, 7, 30, 31, 77, 120]       # 0: a fix exactly on the first row; 30/31 adjacent rows; 120 late
         df = traj_true.iloc[rows][['lat', 'lon', 'alt']].copy()
         df[['lat', 'lon', 'alt']] = transform.perturb_lla(df.values, 1.0 * noise[:len(rows)])
-        df.index = df.index + np.array([0.0, 0.0, 0.0, 0.02, 0.0])      # one off-grid stamp
+        df.index = df.index + np.array([0.0, 0.0, 0.0, 0.0, 0.02, 0.0])      # one off-grid stamp
         out.append(measurements.Position(df, 1.0))
     if 'V' in mix:
         rows = [7, 50, 77]                   # 7 coincident with Position; 77 in the same interval as P's 77+0.02
